@@ -266,10 +266,14 @@ def rule_e(ctx: Ctx) -> None:
         if not functions:
             raise AnalysisError(f"C01.e: no FUNCTIONS table recorded for dialect {dn}")
         bad = 0
+        special = set(d["parser_tables"].get("FUNCTION_PARSERS") or []) | set(d["parser_tables"].get("NO_PAREN_FUNCTION_PARSERS") or [])
         for cls, (kind, N) in sorted(render.items()):
             if not isinstance(N, str):
                 continue
             n += 1
+            if N.upper() in special:
+                und += 1
+                continue  # read back by a bespoke FUNCTION_PARSERS / NO_PAREN entry, which takes precedence over FUNCTIONS: not decided
             if N.upper() not in functions:
                 continue  # read back as an anonymous function, printed verbatim
             Y = functions[N.upper()]
